@@ -39,18 +39,27 @@ PROPS["C14"] = dict(
     assumptions=["float semantics: SMT-LIB FloatingPoint 11 53, RNE; math.Round = roundToIntegral RNA; conversions RNE/RTZ",
                  "maps are association lists with pairwise-distinct symbolic keys; map iteration order irrelevant to Fair/Rate (they index by the list)"],
     groups=[
-        dict(mod="v2", pkg="priority/divider", overlay="harness/v2/divider", harness="^VerifC14_(fair|rate_conservation|degenerate)$", native=True,
+        dict(mod="v2", pkg="priority/divider", overlay="harness/v2/divider", harness="^VerifC14_fair$", native=True,
              params=dict(quick=dict(n=[1, 2, 3, 4], E=[1]), thorough=dict(n=[1, 2, 3, 4, 5, 6, 7, 8], E=[2]))),
-        dict(mod="v1", pkg="priority", overlay="harness/v1/priority", harness="^VerifC14_(fair|rate_conservation|degenerate)$", native=True,
+        dict(mod="v1", pkg="priority", overlay="harness/v1/priority", harness="^VerifC14_fair$", native=True,
              params=dict(quick=dict(n=[1, 2, 3, 4], E=[1]), thorough=dict(n=[1, 2, 3, 4, 5, 6, 7, 8], E=[2]))),
-        dict(mod="equiv", pkg="", overlay="harness/equiv/src", harness="^VerifC14_equiv", native=False,
+        # Rate structure under uninterpreted floats: a pass holds for any float values; a counterexample is a candidate, refined by rate_wide
+        dict(mod="v2", pkg="priority/divider", overlay="harness/v2/divider", harness="^VerifC14_(rate_conservation|degenerate)$", approx=True, refined_by="rate_wide",
+             params=dict(quick=dict(n=[1, 2, 3, 4], E=[1]), thorough=dict(n=[1, 2, 3, 4, 5, 6, 7, 8], E=[2]))),
+        dict(mod="v1", pkg="priority", overlay="harness/v1/priority", harness="^VerifC14_(rate_conservation|degenerate)$", approx=True, refined_by="rate_wide_v1",
+             params=dict(quick=dict(n=[1, 2, 3, 4], E=[1]), thorough=dict(n=[1, 2, 3, 4, 5, 6, 7, 8], E=[2]))),
+        dict(mod="equiv", pkg="", overlay="harness/equiv/src", harness="^VerifC14_equiv", native=False, approx=True, refined_by="rate_wide",
              params=dict(quick=dict(n=[1, 2, 3, 4]), thorough=dict(n=[1, 2, 3, 4, 5, 6]))),
+        dict(name="rate_wide", mod="v2", pkg="priority/divider", overlay="harness/v2/divider", harness="^VerifC14_rate_exact$", native=True, only_as_refinement=True,
+             timeout=120000, params=dict(quick=dict(list=[0, 1, 2, 3, 4, 13, 14, 15], Dbits=[6]), thorough=dict(list=[0, 1, 2, 3, 4, 13, 14, 15], Dbits=[6]))),
+        dict(name="rate_wide_v1", mod="v1", pkg="priority", overlay="harness/v1/priority", harness="^VerifC14_rate_exact$", native=True, only_as_refinement=True,
+             timeout=120000, params=dict(quick=dict(list=[0, 1, 2, 3, 4, 13, 14, 15], Dbits=[6]), thorough=dict(list=[0, 1, 2, 3, 4, 13, 14, 15], Dbits=[6]))),
         dict(mod="v2", pkg="priority/divider", overlay="harness/v2/divider", harness="^VerifC14_rate_L1$", native=True, timeout=dict(quick=60000, thorough=300000),
              params=dict(quick=dict(list=[0, 4, 5], k=[0, 1, 2], Dbits=[16]), thorough=dict(list=[0, 2, 4, 5], k=[0, 1, 2, 3], Dbits=[32]))),
         dict(mod="v2", pkg="priority/divider", overlay="harness/v2/divider", harness="^VerifC14_rate_L2$", native=True, approx=True, timeout=dict(quick=60000, thorough=300000),
              params=dict(quick=dict(list=[0, 1, 3], Dbits=[32]), thorough=dict(list=[0, 1, 2, 3, 4, 5, 6, 7], Dbits=[32]))),
         dict(mod="v2", pkg="priority/divider", overlay="harness/v2/divider", harness="^VerifC14_rate_exact$", native=True, timeout=dict(quick=60000, thorough=300000),
-             params=dict(quick=dict(list=[0, 3], Dbits=[6]), thorough=dict(list=[0, 1, 2, 3, 4, 5], Dbits=[10]))),
+             params=dict(quick=dict(list=[0, 3, 14], Dbits=[6]), thorough=dict(list=[0, 1, 2, 3, 4, 5, 14], Dbits=[10]))),
     ],
 )
 
